@@ -7,6 +7,7 @@ CONSTANTS
   Wnds = {16}
   Variant = "keep"
   EmitOps = FALSE
+  EmitEvery = 1
   AllowNTL = TRUE
   TwoWrites = TRUE
   AllowNil = FALSE
